@@ -304,7 +304,7 @@ def kernel_fallback(rep, cfg, dem, base, W, ps, exp_w, exp_ret, coef, coefext, i
     out_cells = [(idx[r_], off, conv(sp)) for (r_, off), sp in sorted(exp_w.items(), key=str)]
     r = None
     try:
-        with kprove.time_limit(60):
+        with kprove.time_limit(int(__import__("os").environ.get("GLV_KLIMIT", "60"))):
             r = kprove.prove_routine_all_lanes(smod, name, arg_cells, out_cells, conv(exp_ret) if exp_ret is not None else None, sym, W=W,
                                                extra_summaries=kernel_matrix_summaries(smod, cfg, dem))
     except kprove.TimeBudget:
